@@ -138,7 +138,7 @@ impl Property for C04 {
     fn cases(&self, tier: Tier) -> usize {
         match tier {
             Tier::Quick => 30_000,
-            Tier::Thorough => 1_500_000,
+            Tier::Thorough => 1_000_000,
         }
     }
     fn tape_max(&self) -> usize {
